@@ -25,7 +25,7 @@ pub struct Vertex {
     pub root: u8,     // 0 types, 1 r
     pub compact: u8,  // 0 none, 1 set
     pub bits: u8,     // 0 none, 1 set
-    pub subst: u8,    // 0 none, 1 `p::a::G<T> -> ::ext::Static<T>`
+    pub subst: u8,    // 0 none, 1 `p::a::G<T> -> ::ext::Static<T, ::ext::Inner<::ext::Deep<T>>>` (parameter at top level and nested)
 }
 const DIMS: [(&str, u8); 7] = [("alloc", 3), ("docs", 2), ("codec", 2), ("root", 2), ("compact", 2), ("bits", 2), ("subst", 2)];
 
@@ -82,7 +82,7 @@ impl Vertex {
             s.bits_path = None;
         }
         if self.subst == 1 {
-            s.substitutes.push(("p::a::G<T>".into(), "::ext::Static<T>".into()));
+            s.substitutes.push(("p::a::G<T>".into(), "::ext::Static<T, ::ext::Inner<::ext::Deep<T>>>".into()));
         }
         s
     }
